@@ -39,3 +39,12 @@ Definition smap_delete (k : bytes) (s : smap) : smap * bool :=
   then ({| keys := filter (fun x => negb (beqb k x)) (keys s'); m := map_del k (m s') |}, true)
   else (s', false).
 Definition smap_size (s : smap) : nat := length (keys s).
+
+(* ---- specification vocabulary: the reference is an association list sorted by key ---- *)
+Fixpoint rm_put (k : bytes) (v : N) (m : list (bytes * N)) : list (bytes * N) :=
+  match m with
+  | [] => [(k, v)]
+  | (k', v') :: m' => match bcmp k k' with Lt => (k, v) :: m | Eq => (k, v) :: m' | Gt => (k', v') :: rm_put k v m' end
+  end.
+Definition rm_del (k : bytes) (m : list (bytes * N)) := filter (fun kv => negb (beqb k (fst kv))) m.
+Definition rm_get (k : bytes) (m : list (bytes * N)) : option N := map_get k m.
